@@ -42,6 +42,11 @@ static int step_hook(sqlite3_stmt *s) {
             if (exp_cat ? !ueq(t, exp_cat) : (t != 0)) bad_cat = 1;
         }
     }
+#ifdef ROUTE
+    /* route selection for cif_container_set_value: the look-up of the item's loop finds nothing (0: new scalar) or a row (1) */
+    if (strncmp(s->sql, "select l.loop_num", 17) == 0 && ROUTE == 0) return SQLITE_DONE;
+    if (strncmp(s->sql, "select loop_num from loop where container_id = ? and category", 61) == 0 && ROUTE == 0) return SQLITE_DONE;   /* no scalar loop yet */
+#endif
     return -1;
 }
 static const void *text_hook(sqlite3_stmt *s, int col, int *bytes) {
@@ -93,10 +98,12 @@ void harness(void) {
     rc = cif_container_get_item_loop(c, N1, &lout); check_keys();
     if (rc == CIF_OK) V_ASSERT(n_name_binds >= 1, "the item name was bound");
     if (lout) cif_loop_free(lout);
-#elif FN == 7      /* cif_container_set_value */
+#elif FN == 7      /* cif_container_set_value (engine benign; ROUTE enumerated: new scalar / item already present) */
+    senv_fail_mode = 1; senv_fail_at = 0;
     c = mk_container(); exp_norm[0] = N1_N; exp_orig[0] = N1; exp_cat = EMPTY; rc = cif_value_create(CIF_NA_KIND, &v); V_ASSUME(rc == CIF_OK);
     rc = cif_container_set_value(c, N1, v); check_keys();
-    V_ASSERT(rc != CIF_INVALID_ITEMNAME, "a valid name is not refused");
+    V_ASSERT(rc == CIF_OK, "with a working engine a valid set_value succeeds");
+    V_ASSERT(n_name_binds >= 2, "the item name was bound for the look-up and for the modification");
 #elif FN == 8      /* cif_container_get_value */
     c = mk_container(); exp_norm[0] = N1_N; exp_orig[0] = N1;
     rc = cif_container_get_value(c, N1, NULL); check_keys();
